@@ -117,6 +117,7 @@ def js_s(s):
         ini = '' if i[0] == 'none' else (js_e(i[1]) if i[0] == 'expr' else '%s %s' % (i[1], js_declrs(i[2])))
         return 'for (%s; %s; %s) %s' % (ini, '' if s[2] is None else js_e(s[2]),
                                         '' if s[3] is None else js_e(s[3]), js_s(s[4]))
+    if t == 'forof': return 'for (%s %s of %s) %s' % (s[1], s[2], js_e(s[3]), js_s(s[4]))
     if t == 'break': return 'break%s;' % ('' if s[1] is None else ' ' + s[1])
     if t == 'continue': return 'continue%s;' % ('' if s[1] is None else ' ' + s[1])
     if t == 'return': return 'return;' if s[1] is None else 'return %s;' % js_e(s[1])
@@ -210,6 +211,7 @@ class SX:
             ini = '(none)' if i[0] == 'none' else ('(expr %s)' % self.e(i[1]) if i[0] == 'expr'
                                                     else '(decl %s (%s))' % (i[1], self.declrs(i[2])))
             return '(for %s %s %s %s)' % (ini, self.oe(s[2]), self.oe(s[3]), self.s(s[4]))
+        if t == 'forof': return '(forof %s %s %s %s)' % (s[1], s[2], self.e(s[3]), self.s(s[4]))
         if t in ('break', 'continue'): return '(%s %s)' % (t, s[1] or '_')
         if t == 'return': return '(return %s)' % self.oe(s[1])
         if t == 'throw': return '(throw %s)' % self.e(s[1])
@@ -666,7 +668,32 @@ class Gen:
                     looplabels=ctx['looplabels'] + ([lbl] if lbl else []))
         bound = r.choice([1, 2, 3]) if ctx['loop'] == 0 else r.choice([1, 2])
         c = r.random()
-        if c < 0.55:
+        if c < 0.18:
+            # for-of over a fresh array literal (cannot be mutated by the body): per-iteration let/const binding or var
+            kind = r.choice(['let', 'const', 'const', 'var'])
+            elems = [self.expr(scope, 'num', 2) for _ in range(r.choice([0, 1, 2, 3] if ctx['loop'] == 0 else [1, 2]))]
+            ls = Scope(scope)
+            if kind == 'var':
+                i = self.fresh()
+                s = scope
+                while s.parent is not None and not s.is_fun:
+                    s = s.parent
+                s.vars[i] = Var(i, 'var', 'loopctr', assignable=False)
+                ls.vars[i] = s.vars[i]
+            else:
+                i = self.lex_name(ls)
+                ls.lex_names.add(i)
+                ls.vars[i] = Var(i, kind, 'loopctr', assignable=False)
+            body_scope = Scope(ls)
+            body = self.stmts(body_scope, r.choice([1, 2, 3]), ctx2)
+            items = self.closure_jump_items(scope, i, lbl, kind != 'var')
+            pos = r.randrange(len(body) + 1)
+            body[pos:pos] = items
+            src = ('arr', elems)
+            if r.random() < 0.08:
+                src = r.choice([('undef',), ('null',)])            # not iterable: TypeError
+            st = ('forof', kind, i, src, ('block', body))
+        elif c < 0.60:
             # for with let (per-iteration binding) / var / const-less counter
             kind = r.choice(['let', 'let', 'let', 'var'])
             ls = Scope(scope)
@@ -689,7 +716,7 @@ class Gen:
             body[pos:pos] = items
             upd = ('update', True, r.random() < 0.5, i)
             st = ('for', ('decl', kind, [('d', i, ('num', 0))]), ('bin', 'lt', ('var', i), ('num', bound)), upd, ('block', body))
-        elif c < 0.8:
+        elif c < 0.82:
             k = self.fresh()
             s = scope
             while s.parent is not None and not s.is_fun:
@@ -999,6 +1026,9 @@ def collect_sites(prog):
             if s[2]: walk_e(s[2], ns, in_fun, fbody)
             if s[3]: walk_e(s[3], ns, in_fun, fbody)
             walk_s(s[4], ns, in_fun, fbody)
+        elif t == 'forof':
+            walk_e(s[3], names, in_fun, fbody)
+            walk_s(s[4], names + [s[2]], in_fun, fbody)
         elif t in ('return', 'throw'):
             if s[1] is not None: walk_e(s[1], names, in_fun, fbody)
         elif t == 'try':
@@ -1105,6 +1135,9 @@ def has_escape(s):
         elif t == 'do': ws(s[1], loops + 1, labels)
         elif t == 'for':
             if s[1][0] == 'decl' and s[1][1] == 'var': found[0] = True
+            ws(s[4], loops + 1, labels)
+        elif t == 'forof':
+            if s[1] == 'var': found[0] = True
             ws(s[4], loops + 1, labels)
         elif t == 'try':
             for x in s[1] + s[4] + s[6]: ws(x, loops, labels)
